@@ -102,6 +102,9 @@ pub fn check_message(f: &str, e: &NErr, msg: &str) -> CheckResult {
 
 impl Prop for ErrorsPinpoint {
     type Case = Case;
+    fn input_bytes<'a>(&self, c: &'a mut Self::Case) -> Option<&'a mut Vec<u8>> {
+        Some(&mut c.input.0)
+    }
     fn strategy(&self, _tier: Tier) -> BoxedStrategy<Case> {
         let fa = prop_oneof![3 => fasta_invalid_start(), 1 => gen::byte_soup(Format::Fasta)];
         let fq = prop_oneof![5 => gen::fastq_doc_with(10, false), 1 => gen::mutated(Format::Fastq, gen::fastq_valid_doc(6)), 1 => gen::byte_soup(Format::Fastq)];
